@@ -133,8 +133,18 @@ func (rp *Report) Finish() error {
 		rp.r.Extra[k] = v
 	}
 	rp.r.Extra["distinct_nontrivial"] = float64(len(rp.classes))
+	// The driver takes the union of class labels across shards when they are
+	// listed (a sum of per-shard counts would count shared classes twice).
+	if len(rp.classes) <= 100000 {
+		cl := make([]string, 0, len(rp.classes))
+		for c := range rp.classes {
+			cl = append(cl, c)
+		}
+		rp.r.Extra["_classes"] = cl
+	}
 	if _, ok := rp.extra["states"]; !ok {
 		rp.r.Extra["states"] = float64(len(rp.classes))
+		rp.r.Extra["_states_default"] = true
 	}
 	if _, ok := rp.extra["transitions"]; !ok {
 		rp.r.Extra["transitions"] = rp.extra["evaluations"]
